@@ -6,7 +6,7 @@ import shutil
 import sys
 import tempfile
 
-from core import Check, HarnessError, run_check, watchdog
+from core import tool, Check, HarnessError, run_check, watchdog
 import fakemp
 import gen
 
@@ -261,7 +261,7 @@ def c12(ck, tmp):
         cores = rng.choice([1, 1, 2])
         os.environ["GAFTOOLS_VERIF_BATCH_SIZE"] = str(rng.choice([2, 3, 1000]))
         try:
-            run_realign(gaf, gfa, fa, output=out, cores=cores)
+            tool("realign", gaf=gaf, graph=gfa, fasta=fa, output=out, cores=cores)
             olines = open(out).read().splitlines()
         except BaseException as e:  # noqa
             ck.violation("realign crashed: %s: %s" % (type(e).__name__, e), {"gfa": text[:5000], "gaf": [l[:300] for l in lines]})
@@ -428,7 +428,7 @@ def main_c12():
     ck.assumptions = ["AlignerContract: the aligner returns a valid, cost-optimal end-to-end alignment (monitored, not proved)",
                       "cost comparison with the input CIGAR only when the input CIGAR is itself a valid alignment of the two slices"]
     ck.canon = ["log output ignored"]
-    ck.lean_build(["Gaftools.Props.C12", "Gaftools.Props.TieA2"])
+    ck.lean_build(["Gaftools.Props.C12", "Gaftools.Props.C12b", "Gaftools.Props.TieA2"])
     ck.audit("C12.lean")
     tmp = tempfile.mkdtemp(prefix="gtv-c12-")
     try:
